@@ -112,6 +112,14 @@ pub struct Scn {
     /// encoder is free to produce zero bytes for a record)
     #[serde(default)]
     pub silent: Vec<(u16, u16)>,
+    /// drive the appender through a real `log4rs::Logger` with the default
+    /// error handler (a tap appender in between reports each result)
+    #[serde(default)]
+    pub via_logger: bool,
+    /// the process's stdout and stderr are unusable for the whole run (every
+    /// write fails with ENOSPC, as on a full disk behind a redirection)
+    #[serde(default)]
+    pub std_broken: bool,
     pub sched_seed: u64,
     pub policy: kernel::Policy,
 }
@@ -788,18 +796,23 @@ pub fn generate(rng: &mut Rng, tier: Tier, profile: &str) -> Scn {
         }
         if profile == "C08-obst" {
             if let RollerSpec::Fixed { count, .. } = &roller {
-                if *count >= 2 {
+                if *count >= 1 {
+                    // anywhere in the window: the base slot makes the final move fail, the others a shift
+                    let off = rng.range(0, (*count - 1) as u64) as u32;
                     let at = rng.below(phases.len() as u64 + 1) as usize;
-                    phases.insert(at.min(phases.len().saturating_sub(1)), Phase::Obstacle { off: rng.range(1, (*count - 1) as u64) as u32, put: true });
+                    phases.insert(at.min(phases.len().saturating_sub(1)), Phase::Obstacle { off, put: true });
                     if rng.chance(1, 2) {
-                        phases.push(Phase::Obstacle { off: 0, put: false });
+                        // the obstruction may have been carried upwards by a shift: clear every slot
+                        for o in 0..=*count {
+                            phases.push(Phase::Obstacle { off: o, put: false });
+                        }
                         phases.push(Phase::Work { threads: vec![vec![Op::Append { n: 0, len: 30 }, Op::Append { n: 1, len: 300 }]] });
                     }
                 }
             }
         }
     }
-    Scn {
+    let mut s = Scn {
         append,
         encoder: if rng.chance(1, 2) { EncKind::Chunk { seed: rng.next_u64() } } else { EncKind::Pattern },
         trigger,
@@ -818,9 +831,16 @@ pub fn generate(rng: &mut Rng, tier: Tier, profile: &str) -> Scn {
         via_config: rng.chance(1, 4),
         omit_append_key: rng.chance(1, 2),
         silent,
+        via_logger: false,
+        std_broken: false,
         sched_seed: rng.next_u64(),
         policy: common::gen_policy(rng),
+    };
+    if profile.starts_with("C08") {
+        s.via_logger = rng.chance(1, 3);
+        s.std_broken = rng.chance(1, 3);
     }
+    s
 }
 
 fn gen_advance(rng: &mut Rng, trigger: &TriggerSpec) -> Op {
@@ -884,7 +904,64 @@ fn build_appender(scn: &Scn, sh: &Arc<Shared>, append: bool) -> anyhow::Result<B
     }
     let policy = CompoundPolicy::new(policy_parts.0.take().unwrap(), policy_parts.1);
     let a = RollingFileAppender::builder().append(append).encoder(Box::new(enc)).build(&sh.names.active, Box::new(policy))?;
-    Ok(Box::new(a))
+    wrap_logger(scn, sh, Box::new(a))
+}
+
+thread_local! {
+    /// result of the tapped appender's last call on this thread
+    static TAP: std::cell::RefCell<Option<Result<(), String>>> = const { std::cell::RefCell::new(None) };
+}
+
+/// Sits between the real `Logger` and the real appender: passes everything
+/// through and leaves a copy of the result for the calling harness thread.
+#[derive(Debug)]
+struct Tap(Box<dyn Append>);
+
+impl Append for Tap {
+    fn append(&self, record: &log::Record) -> anyhow::Result<()> {
+        let r = self.0.append(record);
+        TAP.with(|t| *t.borrow_mut() = Some(r.as_ref().map(|_| ()).map_err(|e| format!("{:#}", e))));
+        r
+    }
+    fn flush(&self) {
+        self.0.flush()
+    }
+}
+
+/// An `Append` facade over a whole `log4rs::Logger` (root logger, one
+/// appender, default error handler): what an application's `info!()` reaches.
+struct LoggerDriven(log4rs::Logger);
+
+impl std::fmt::Debug for LoggerDriven {
+    fn fmt(&self, f: &mut std::fmt::Formatter<'_>) -> std::fmt::Result {
+        f.write_str("LoggerDriven")
+    }
+}
+
+impl Append for LoggerDriven {
+    fn append(&self, record: &log::Record) -> anyhow::Result<()> {
+        TAP.with(|t| *t.borrow_mut() = None);
+        log::Log::log(&self.0, record);
+        match TAP.with(|t| t.borrow_mut().take()) {
+            Some(Ok(())) => Ok(()),
+            Some(Err(e)) => Err(anyhow::anyhow!(e)),
+            None => Err(anyhow::anyhow!("the logger did not hand the record to its appender")),
+        }
+    }
+    fn flush(&self) {
+        log::Log::flush(&self.0)
+    }
+}
+
+fn wrap_logger(scn: &Scn, sh: &Arc<Shared>, a: Box<dyn Append>) -> anyhow::Result<Box<dyn Append>> {
+    if !scn.via_logger {
+        return Ok(a);
+    }
+    let cfg = log4rs::Config::builder()
+        .appender(log4rs::config::Appender::builder().build("a", Box::new(Tap(a))))
+        .build(log4rs::config::Root::builder().appender("a").build(log::LevelFilter::Trace))?;
+    sh.sink.probe("appenders_driven_through_logger", 1);
+    Ok(Box::new(LoggerDriven(log4rs::Logger::new(cfg))))
 }
 
 type PolicyParts = (std::cell::Cell<Option<Box<dyn Trigger>>>, Box<dyn Roll>);
@@ -932,7 +1009,8 @@ fn build_via_config(scn: &Scn, sh: &Arc<Shared>, append: bool, trigger: Box<dyn 
     yaml.push_str("encoder:\n  kind: pencoder\npolicy:\n  kind: compound\n  trigger:\n    kind: ptrigger\n  roller:\n    kind: proller\n");
     let value: serde_value::Value = serde_yaml::from_str(&yaml)?;
     sh.sink.probe("appenders_built_through_config", 1);
-    d.deserialize::<dyn Append>("rolling_file", value)
+    let a = d.deserialize::<dyn Append>("rolling_file", value)?;
+    wrap_logger(scn, sh, a)
 }
 
 fn do_append(sh: &Arc<Shared>, appender: &dyn Append, id: RecId, len: u32, others_inflight: &Mutex<u32>) {
@@ -1222,6 +1300,12 @@ pub fn execute(scn: &Scn, opts: &ExecOpts) -> Outcome {
         next_sched: Mutex::new(i64::MIN),
     });
     let sched = opts.sched.clone().unwrap_or(Sched::Prng { seed: scn.sched_seed, policy: scn.policy.clone() });
+    let _std = if scn.std_broken {
+        sink.probe("runs_with_unusable_stdout_stderr", 1);
+        Some(fsutil::BrokenStd::install())
+    } else {
+        None
+    };
     let k = common::begin(RunCfg {
         sched,
         trace: opts.trace,
@@ -1380,7 +1464,9 @@ pub fn execute(scn: &Scn, opts: &ExecOpts) -> Outcome {
                             kernel::note("obstacle.put", &sh.names.key(&p));
                             sh.sink.probe("obstacle_directory_at_archive_name", 1);
                         } else {
-                            let _ = fs::remove_dir_all(&p);
+                            if p.join("keep").is_dir() {
+                                let _ = fs::remove_dir_all(&p);
+                            }
                             if let Some(par) = &parent {
                                 if fs::read(par).map(|b| b == rmodel::OBSTACLE_MARK).unwrap_or(false) {
                                     let _ = fs::remove_file(par);
@@ -1474,7 +1560,7 @@ pub fn execute(scn: &Scn, opts: &ExecOpts) -> Outcome {
                 let r = bodies;
                 // remember overlap after the phase
                 let ov2 = ov.clone();
-                let res = run_bodies(&k, r, &sink, &mut out, &scn.trigger);
+                let res = run_bodies(&k, r, &sink, &mut out, &scn.trigger, fault_mode);
                 overlapped |= *ov2.lock().unwrap();
                 if !res {
                     stop = true;
@@ -1482,7 +1568,7 @@ pub fn execute(scn: &Scn, opts: &ExecOpts) -> Outcome {
                 continue;
             }
         };
-        if !run_bodies(&k, bodies, &sink, &mut out, &scn.trigger) {
+        if !run_bodies(&k, bodies, &sink, &mut out, &scn.trigger, fault_mode) {
             stop = true;
         }
         if sink.any() {
@@ -1714,17 +1800,17 @@ fn liveness_epilogue(k: &Arc<kernel::Kernel>, scn: &Scn, sh: &Arc<Shared>, live:
             sh.sink.fail("C08", "C08-L1", "no-rotation-after-recovery", format!("{}: three appends that satisfy the trigger were acknowledged after the fault was cleared but no rotation completed", who));
         }
     });
-    run_bodies(k, vec![body], sink, out, &scn.trigger)
+    run_bodies(k, vec![body], sink, out, &scn.trigger, true)
 }
 
-fn run_bodies(k: &Arc<kernel::Kernel>, bodies: Vec<Box<dyn FnOnce() + Send>>, sink: &Arc<Sink>, out: &mut Outcome, trigger: &TriggerSpec) -> bool {
+fn run_bodies(k: &Arc<kernel::Kernel>, bodies: Vec<Box<dyn FnOnce() + Send>>, sink: &Arc<Sink>, out: &mut Outcome, trigger: &TriggerSpec, obstructed: bool) -> bool {
     let panics = k.run_phase(bodies, common::WATCHDOG_S);
     for (t, msg) in panics {
         if t == usize::MAX {
             out.harness_error = Some("STALL: a simulated thread did not reach a decision point".into());
             return false;
         }
-        let faulty = k.any_fault_or_crash_fired();
+        let faulty = obstructed || k.any_fault_or_crash_fired();
         let (p, i) = match trigger {
             _ if faulty => ("C08", "C08-I1"),
             TriggerSpec::Time { .. } => ("C16", "C16-I5"),
@@ -1774,11 +1860,22 @@ pub fn size(s: &Scn) -> usize {
             }
         }
     }
-    n + s.pre_archives.len() + s.bystanders.len() + s.pre_active.as_ref().map(|v| 1 + v.len()).unwrap_or(0) + s.faults.len()
+    n + s.pre_archives.len() + s.bystanders.len() + s.pre_active.as_ref().map(|v| 1 + v.len()).unwrap_or(0) + s.faults.len() + s.via_logger as usize + s.std_broken as usize + s.via_config as usize
 }
 
 pub fn shrink(s: &Scn) -> Vec<Scn> {
     let mut out = vec![];
+    for f in 0..3 {
+        let mut c = s.clone();
+        let on = match f {
+            0 => std::mem::replace(&mut c.via_logger, false),
+            1 => std::mem::replace(&mut c.std_broken, false),
+            _ => std::mem::replace(&mut c.via_config, false),
+        };
+        if on {
+            out.push(c);
+        }
+    }
     for i in 0..s.phases.len() {
         let mut c = s.clone();
         c.phases.remove(i);
